@@ -456,6 +456,36 @@ def clause8_fetch_unsubscribed(ctx, P, cg, own):
         raise AnalysisBroken("free_fetch call instances on paths: %d" % n)
 
 
+def clause9_hooks_first(ctx, P, cg):
+    """cJSON allocates through cjet's accounted allocator only after init_parser() installed the hooks; whatever is parsed
+    or created before that comes from plain malloc and is later released through cjet_free() (header mismatch: abort at
+    shutdown, accounting below zero)"""
+    m = P.fn("main.c:main")
+    ips = m.calls("init_parser")
+    if len(ips) != 1:
+        raise AnalysisBroken("main: init_parser call sites: %d" % len(ips))
+    ip = ips[0]
+    early = []
+    n = 0
+    for c in m.all_insts():
+        if c.op != "call" or c.id == ip.id:
+            continue
+        uses = False
+        for t in cg.targets(m, c):
+            names = {P.srcname_of(t)} | {P.srcname_of(x) for x in cg.reach(t)} if t in P.functions else {P.srcname_of(t)}
+            if any(nm.startswith(("cJSON_Parse", "cJSON_Create", "cJSON_Duplicate", "cJSON_Print")) for nm in names):
+                uses = True
+        if not uses:
+            continue
+        n += 1
+        after = m.dominates(ip.block, c.block) and (ip.block != c.block or ip.idx < c.idx)
+        if not after:
+            early.append(c)
+    ctx.ob("C07.6 R-ORDER", m, "allocator-hooks-before-any-json", not early and n >= 2,
+           "%s() at %s can build JSON objects before init_parser() has pointed cJSON at cjet_malloc/cjet_free: those objects are freed "
+           "through cjet_free() later" % (P.srcname_of(early[0].callee or "?") if early else "?", early[0].loc if early else "?"))
+
+
 def run(ctx):
     for cfg in ctx.configs(["default"] if ctx.tier == "quick" else None):
         P, cg = cfg.P, cfg.cg
@@ -469,3 +499,4 @@ def run(ctx):
         clause6_shutdown(ctx, P, cg)
         clause7_linked(ctx, P, cg, own)
         clause8_fetch_unsubscribed(ctx, P, cg, own)
+        clause9_hooks_first(ctx, P, cg)
